@@ -6,9 +6,10 @@ export GOFLAGS=-mod=mod GOPROXY=off GOSUMDB=off GOTOOLCHAIN=local
 W=/tmp/ev/wt-$ID-$$
 git -C /repo worktree add -q --detach "$W" HEAD || exit 2
 trap 'git -C /repo worktree remove --force "$W" >/dev/null 2>&1' EXIT
+V="${VERIF_DIR:-/verif}"
 git -C "$W" apply /verif/seeded/$ID/patch.diff || { echo "$ID: patch does not apply"; exit 2; }
 for P in "$@"; do
-  OUT=$(cd /verif && VERIF_REPO="$W" ./check.sh "$P" "$TIER" 2>&1); rc=$?
+  OUT=$(cd "$V" && VERIF_REPO="$W" ./check.sh "$P" "$TIER" 2>&1); rc=$?
   echo "$ID $P exit=$rc classes: $(echo "$OUT" | grep -A1 '^VIOLATION' | grep -o 'class=[a-z-]*' | sort | uniq -c | tr '\n' ' ')"
   [ $rc -eq 2 ] && echo "$OUT" | tail -4 | cut -c1-300 | sed 's/^/    !! /'
 done
